@@ -120,7 +120,7 @@ func runC06(e *Engine, g G, o RunOpt) RunInfo {
 	sc.Deferred = g.Pct("deferred-build", 25)
 	nr := g.Range("nroutes", 0, 6)
 	typePool := []string{"chat", "normal", "groupchat", "headline", "error", "get", "set", "result", "unavailable", "subscribe", "Chat", "GET"}
-	nsPool := []string{nsVersion, nsDiscoInfo, nsDiscoItems, "urn:xmpp:ping", "x:y", nsCommands, nsPubSub, nsRoster, "urn:example:MyApp"}
+	nsPool := []string{nsVersion, nsDiscoInfo, nsDiscoItems, "urn:xmpp:ping", "x:y", nsCommands, nsPubSub, nsRoster, "urn:example:MyApp", "urn:example:diag"}
 	for i := 0; i < nr; i++ {
 		var r c06Route
 		if g.Pct("catchall", 15) {
@@ -183,7 +183,10 @@ func runC06(e *Engine, g G, o RunOpt) RunInfo {
 		case 2:
 			t := []string{"get", "set", "result", "error"}[g.Weighted("it", 4, 3, 2, 1)]
 			pl, ns := "", ""
-			switch g.N("ipl", 10) {
+			switch g.N("ipl", 11) {
+			case 10:
+				// a payload that is merely called like the stanza error element
+				pl, ns = "<error xmlns='urn:example:diag'><detail/></error>", "urn:example:diag"
 			case 9:
 				// a namespace is any URI: this one has capitals, and the route configured with it is its route
 				pl, ns = "<q xmlns='urn:example:MyApp'/>", "urn:example:MyApp"
